@@ -245,6 +245,12 @@ def run(ch, idx, tier):
                     except Exception:
                         pass
         for s in d.series:
+            try:
+                looked_up = d[(s.result, s.pop, s.output)]
+                if looked_up is not s and not (_close(looked_up.vals, s.vals) and looked_up.pop == s.pop and looked_up.output == s.output and looked_up.result == s.result):
+                    violate("lookup_returns_other_series", "PlotData.__getitem__", {"asked": [s.result, s.pop, s.output], "got": [looked_up.result, looked_up.pop, looked_up.output]})
+            except Exception:
+                pass
             ref = iso.get((s.pop, s.output)) if s.result == "shared" else iso_b.get((s.pop, s.output))
             if ref is None:
                 continue
